@@ -246,12 +246,31 @@ func init() {
 		}
 		// the exported gate the CLI applies to last-resort recovery answers, on the whole command list in database order
 		// (runs of adjacent entries that must be rejected included): what it keeps is exactly what the predicate admits
-		if len(prev)%4 == 1 && len(cur.DB.Commands) > 0 {
+		func() {
+			if !(len(prev)%4 == 1 && len(cur.DB.Commands) > 0) {
+				return
+			}
 			all := make([]database.SearchResult, len(cur.DB.Commands))
 			for i := range cur.DB.Commands {
 				all[i] = database.SearchResult{Command: &cur.DB.Commands[i], Score: 1}
 			}
-			kept := database.FilterResults(all, cur.Opts)
+			var kept []database.SearchResult
+			gateThere := func() (ok bool) {
+				defer func() {
+					if p := recover(); p != nil {
+						if strings.Contains(fmt.Sprint(p), "verif-hook-unavailable") {
+							mon.Tag("c04.filterresults-hook-unavailable")
+							return
+						}
+						panic(p)
+					}
+				}()
+				kept = database.VerifFilterResults(all, cur.Opts)
+				return true
+			}()
+			if !gateThere {
+				return
+			}
 			var want []*database.Command
 			for i := range cur.DB.Commands {
 				c := &cur.DB.Commands[i]
@@ -279,7 +298,7 @@ func init() {
 				}
 			}
 			mon.Tag("c04-filterresults-whole-list")
-		}
+		}()
 		// cached answers: the same query under a run of filter-switch variants on ONE cache, most
 		// permissive first; whatever was cached for another variant, each answer must satisfy ITS switches
 		if len(cur.Results) > 0 && len(prev)%3 == 0 {
